@@ -410,7 +410,14 @@ class TaskManager(rpu.ClientComponent):
                     self._log.debug('tmgr: state known: %s', uid)
                     continue
 
-                target, passed = rps._task_state_progress(uid, current, target)
+                try:
+                    target, passed = rps._task_state_progress(uid, current,
+                                                              target)
+                except ValueError as e:
+                    # contradicting final state: discard this update only, the
+                    # other tasks of the bulk still need to be handled
+                    self._log.warn('tmgr: update ignored: %s', e)
+                    continue
 
                 if target in [rps.CANCELED, rps.FAILED]:
                     # don't replay intermediate states
